@@ -140,55 +140,63 @@ def MKind.capsOff : MKind → Nat
   | .beacon | .probeResp => 10
   | _ => 0
 
+/-- the element loop shared by the parsers: iterate over the tag region, any failure becomes -EINVAL -/
+def walkTags {σ} (tags : Bytes) (f : σ → Spec.ElemAt → Outcome σ) (s0 : σ) (g : σ → Parsed) : Outcome Parsed :=
+  match reported tags with
+  | .ok es =>
+    match foldElems f s0 es with
+    | .ok b => .ok (g b)
+    | .err _ => .err (-EINVAL)
+    | .fault x => .fault x
+  | .err _ => .err (-EINVAL)
+  | .fault x => .fault x
+
+/-- beacon / probe response / (re)association response: fixed parameters of `fixedLen` octets whose capability
+field sits at `capsOff`, then the tagged parameters -/
+def parseBssKind (f : Frame) (fixedLen capsOff : Nat) (a1 a2 a3 : Bytes) : Outcome Parsed :=
+  if f.len ≤ f.headerLen + fixedLen then .err (-EINVAL)
+  else if f.len < f.headerLen + fixedLen + 2 then .err (-EINVAL)
+  else do
+    let capLo ← rd "body" f.body capsOff
+    let _capHi ← rd "body" f.body (capsOff + 1)
+    let enc0 := if (capLo.toNat / 16) % 2 = 1 then WEP else 0     -- CAPABILITIES_PRIVACY = bit 4
+    let tlen := f.len - (f.headerLen + fixedLen)
+    let tags ← rdSlice "body" f.body fixedLen tlen
+    let b0 : Bss := { receiver := a1, transmitter := a2, bssid := a3, enc := enc0, tags := tags }
+    walkTags tags (bssElem tags) b0 Parsed.bss
+
+/-- probe request (`strict = false`: an empty tag region is allowed) / (re)association request -/
+def parseStaKind (f : Frame) (fixedLen : Nat) (strict : Bool) (a2 a3 : Bytes) : Outcome Parsed :=
+  if strict ∧ f.len ≤ f.headerLen + fixedLen then .err (-EINVAL)
+  else do
+    let tlen := f.len - (f.headerLen + fixedLen)
+    let tags ← rdSlice "body" f.body fixedLen tlen
+    let randomized := if (a2.getD 0 0).toNat / 2 % 2 = 1 then 1 else 0
+    let s0 : Sta := { transmitter := a2, bssid := a3, randomized := randomized, tags := tags }
+    walkTags tags (staElem tags) s0 Parsed.sta
+
+/-- deauthentication / disassociation -/
+def parseReasonKind (f : Frame) (fixedLen : Nat) : Outcome Parsed :=
+  if f.len < f.headerLen + fixedLen then .err (-EINVAL)
+  else do
+    let lo ← rd "body" f.body 0
+    let hi ← rd "body" f.body 1
+    let tlen := f.len - f.headerLen - fixedLen
+    let tags ← rdSlice "body" f.body fixedLen tlen
+    let ordered := match f.fc with
+      | _ :: b1 :: _ => fcOrdered b1
+      | _ => false
+    .ok (.reason { ordered := ordered, header := f.header, reason := le16 lo hi, tags := tags })
+
 /-- the nine `libwifi_parse_<kind>(out, frame)` -/
 def parseMgmt (k : MKind) (f : Frame) : Outcome Parsed :=
   if ¬ typeOk f k then .err (-EINVAL)
   else
     let (a1, a2, a3) := addrs f
     match k with
-    | .beacon | .probeResp | .assocResp | .reassocResp =>
-      if f.len ≤ f.headerLen + k.fixedLen then .err (-EINVAL)
-      else if f.len < f.headerLen + k.fixedLen + 2 then .err (-EINVAL)
-      else do
-        let capLo ← rd "body" f.body k.capsOff
-        let _capHi ← rd "body" f.body (k.capsOff + 1)
-        let enc0 := if (capLo.toNat / 16) % 2 = 1 then WEP else 0     -- CAPABILITIES_PRIVACY = bit 4
-        let tlen := f.len - (f.headerLen + k.fixedLen)
-        let tags ← rdSlice "body" f.body k.fixedLen tlen
-        let b0 : Bss := { receiver := a1, transmitter := a2, bssid := a3, enc := enc0, tags := tags }
-        match reported tags with
-        | .ok es =>
-          match foldElems (bssElem tags) b0 es with
-          | .ok b => .ok (.bss b)
-          | .err _ => .err (-EINVAL)
-          | .fault x => .fault x
-        | .err _ => .err (-EINVAL)
-        | .fault x => .fault x
-    | .probeReq | .assocReq | .reassocReq =>
-      if k ≠ .probeReq ∧ f.len ≤ f.headerLen + k.fixedLen then .err (-EINVAL)
-      else do
-        let tlen := f.len - (f.headerLen + k.fixedLen)
-        let tags ← rdSlice "body" f.body k.fixedLen tlen
-        let randomized := if (a2.getD 0 0).toNat / 2 % 2 = 1 then 1 else 0
-        let s0 : Sta := { transmitter := a2, bssid := a3, randomized := randomized, tags := tags }
-        match reported tags with
-        | .ok es =>
-          match foldElems (staElem tags) s0 es with
-          | .ok s => .ok (.sta s)
-          | .err _ => .err (-EINVAL)
-          | .fault x => .fault x
-        | .err _ => .err (-EINVAL)
-        | .fault x => .fault x
-    | .deauth | .disassoc =>
-      if f.len < f.headerLen + k.fixedLen then .err (-EINVAL)
-      else do
-        let lo ← rd "body" f.body 0
-        let hi ← rd "body" f.body 1
-        let tlen := f.len - f.headerLen - k.fixedLen
-        let tags ← rdSlice "body" f.body k.fixedLen tlen
-        let ordered := match f.fc with
-          | _ :: b1 :: _ => fcOrdered b1
-          | _ => false
-        .ok (.reason { ordered := ordered, header := f.header, reason := le16 lo hi, tags := tags })
+    | .beacon | .probeResp | .assocResp | .reassocResp => parseBssKind f k.fixedLen k.capsOff a1 a2 a3
+    | .probeReq => parseStaKind f k.fixedLen false a2 a3
+    | .assocReq | .reassocReq => parseStaKind f k.fixedLen true a2 a3
+    | .deauth | .disassoc => parseReasonKind f k.fixedLen
 
 end LWV.Model
